@@ -288,6 +288,36 @@ func sprintf(fr *frame, format string, args []value) value {
 				return spliceSym(fr, sb.String(), enc, format[p:], args[argi:])
 			}
 		}
+		if verb == 'x' && flags == "0" && wp != "" {
+			if tm, ok := a.v.(*Term); ok && tm.sort.k == sBV {
+				// zero-padded hex of a symbolic integer: exact digits when
+				// the value fits the width (else unsupported)
+				var w int
+				fmt.Sscanf(wp, "%d", &w)
+				if w >= 1 && w <= 8 && 4*w <= 64 {
+					bits := tm.sort.w
+					fits := termTrue
+					if 4*w < bits {
+						fits = mk("bvult", boolSort, tm, mkBV(bits, uint64(1)<<uint(4*w)))
+					}
+					if fr.i.branch(fits, token.NoPos) {
+						digs := make([]value, w)
+						for k := 0; k < w; k++ {
+							sh := uint64(4 * (w - 1 - k))
+							nib := mk("bvand", tm.sort, mk("bvlshr", tm.sort, tm, mkBV(bits, sh)), mkBV(bits, 15))
+							n8 := nib
+							if bits > 8 {
+								n8 = mkP("extract", bvSort(8), 7, 0, nib)
+							}
+							digs[k] = tIte(mk("bvult", boolSort, n8, mkBV(8, 10)),
+								mk("bvadd", bvSort(8), n8, mkBV(8, '0')),
+								mk("bvadd", bvSort(8), n8, mkBV(8, 'a'-10)))
+						}
+						return spliceSym(fr, sb.String(), mkStr(digs), format[p:], args[argi:])
+					}
+				}
+			}
+		}
 		if verb == 's' || verb == 'v' {
 			if ss, ok := a.v.(symstr); ok && flags == "" && wp == "" {
 				return spliceSym(fr, sb.String(), ss, format[p:], args[argi:])
